@@ -106,7 +106,7 @@ Concrete(w) ==
 (* ---- state ---- *)
 VARIABLES world,     \* abstract world (as serialised for the harness)
           reps,      \* its concrete replica series
-          cfg,       \* [dedup, RL, strip, lo, hi]
+          cfg,       \* [dedup, rls, strip, lo, hi, scope]
           stage,     \* "stores" | "proxy" | "split" | "iter" | "dedup" | "done"
           streams,   \* store -> sequence of [lbls, chunks (set)]   what each store sent
           series,    \* sequence of [lbls, chunks (sequence)]       proxy output, then overlap-split output
@@ -120,13 +120,16 @@ WholeRange == [lo |-> 0, hi |-> 100000000]
 SubRange(w, n) == [lo |-> 2 * w.step, hi |-> (n - 1) * w.step + 300]
 
 Cfgs(w, cls) ==
-    CASE cls = "A" -> { [dedup |-> d, rls |-> {"r", "s"}, strip |-> [s \in Stores |-> s = 1], lo |-> rg.lo, hi |-> rg.hi]
+    CASE cls = "A" -> { [dedup |-> d, rls |-> {"r", "s"}, strip |-> [s \in Stores |-> s = 1], lo |-> rg.lo, hi |-> rg.hi, scope |-> Stores]
                         : d \in BOOLEAN, rg \in {WholeRange, SubRange(w, N)} }
-      [] cls = "A3" -> { [dedup |-> TRUE, rls |-> {"r", "s"}, strip |-> [s \in Stores |-> TRUE], lo |-> rg.lo, hi |-> rg.hi]
+      [] cls = "A3" -> { [dedup |-> TRUE, rls |-> {"r", "s"}, strip |-> [s \in Stores |-> TRUE], lo |-> rg.lo, hi |-> rg.hi, scope |-> Stores]
                         : rg \in {WholeRange, SubRange(w, N3)} }
-      [] cls = "B" -> { [dedup |-> d, rls |-> rl, strip |-> sp, lo |-> WholeRange.lo, hi |-> WholeRange.hi]
-                        : d \in BOOLEAN, rl \in {{"r", "s"}, {"r"}}, sp \in [Stores -> BOOLEAN] }
-      [] cls = "C" -> { [dedup |-> d, rls |-> {"r", "s"}, strip |-> [s \in Stores |-> TRUE], lo |-> rg.lo, hi |-> rg.hi]
+      [] cls = "B" -> { c \in
+                      { [dedup |-> d, rls |-> rl, strip |-> sp, lo |-> WholeRange.lo, hi |-> WholeRange.hi, scope |-> sc]
+                        : d \in BOOLEAN, rl \in {{"r", "s"}, {"r"}}, sp \in [Stores -> BOOLEAN],
+                          sc \in {{1, 2}, {1}, {2}} }
+                      : c.scope = Stores \/ (c.strip[1] /\ c.strip[2]) }    \* store scope varied with stripping stores only
+      [] cls = "C" -> { [dedup |-> d, rls |-> {"r", "s"}, strip |-> [s \in Stores |-> TRUE], lo |-> rg.lo, hi |-> rg.hi, scope |-> Stores]
                         : d \in BOOLEAN, rg \in {WholeRange, SubRange(w, NC)} }
 
 Init ==
@@ -148,7 +151,7 @@ StoreAnswer(s) ==
     IN SetToSortSeq({ x \in mine : x.chunks # {} }, SeriesLess)
 StoresAnswer ==
     /\ stage = "stores"
-    /\ streams' = [s \in Stores |-> StoreAnswer(s)]
+    /\ streams' = [s \in Stores |-> IF s \in cfg.scope THEN StoreAnswer(s) ELSE <<>>]   \* only selected, healthy stores answer
     /\ stage' = "proxy"
     /\ UNCHANGED <<world, reps, cfg, series, iters, out>>
 
@@ -209,10 +212,12 @@ Next == StoresAnswer \/ ProxyMerge \/ Split \/ Iterate \/ Dedup
 Spec == Init /\ [][Next]_vars /\ WF_vars(Next)
 
 (* ---- known finding class (input only) ---- *)
+SR == Scoped(reps, cfg.scope)          \* what the selected stores hold
+VR == Visible(SR)                      \* ... as the property-level operators see it
 KnownFindingLset(l) ==
-    LET G == Group(reps, RL, l) IN
-    /\ cfg.dedup /\ cfg.rls # {} /\ IdenticalGroup(G)
-    /\ FirstChainIncomplete(GroupChunks(G, cfg.lo, cfg.hi), cfg.lo, cfg.hi, (CHOOSE r \in G : TRUE).samples)
+    LET G == Group(SR, RL, l)  VG == Group(VR, RL, l) IN
+    /\ cfg.dedup /\ cfg.rls # {} /\ VG # {} /\ IdenticalGroup(VG)
+    /\ FirstChainIncomplete(GroupChunks(G, cfg.lo, cfg.hi), cfg.lo, cfg.hi, (CHOOSE r \in VG : TRUE).samples)
 
 (* ---- invariants ---- *)
 (* intermediate: what the proxy hands on is strictly sorted (each label set once) *)
@@ -225,11 +230,11 @@ ChainsDisjoint ==
         \A i \in DOMAIN series : \A k \in 1..(Len(series[i].chunks) - 1) :
             series[i].chunks[k].max < series[i].chunks[k + 1].min
 (* C04 *)
-C04_OneSeriesPerLset == stage = "done" => OneSeriesPerLset(out, reps, RL, cfg.lo, cfg.hi)
+C04_OneSeriesPerLset == stage = "done" => OneSeriesPerLset(out, VR, RL, cfg.lo, cfg.hi)
 C04_ExactWhenIdentical ==
     stage = "done" => \A i \in DOMAIN out :
-        ~KnownFindingLset(out[i].lbls) => ExactWhenIdentical(out[i], reps, RL, cfg.lo, cfg.hi)
-C04_Provenance == stage = "done" => \A i \in DOMAIN out : Provenance(out[i], reps, RL)
+        ~KnownFindingLset(out[i].lbls) => ExactWhenIdentical(out[i], VR, RL, cfg.lo, cfg.hi)
+C04_Provenance == stage = "done" => \A i \in DOMAIN out : Provenance(out[i], VR, RL)
 OutIncreasing ==
     stage = "done" => \A i \in DOMAIN out : \A k \in 1..(Len(out[i].samples) - 1) :
         out[i].samples[k][1] < out[i].samples[k + 1][1]
